@@ -52,6 +52,30 @@ type Report struct {
 	Explain    string
 	Extra      map[string]any
 	curRule    string
+	// while another property's whole rule set is being run as part of this one (shareWhole):
+	// rules this report had declared before are not evaluated a second time
+	skipRules map[string]bool
+}
+
+// shareWhole runs another property's complete rule set under this report — for properties
+// whose statement contains the other's as a clause ("every command sent on the session passes
+// the BMC's integrity check" contains "every packet sent in a session is authenticated,
+// encrypted and well-formed"). The other check's explanation and lists are not taken over.
+func (r *Report) shareWhole(c *Ctx, other func(*Ctx, *Report)) {
+	ex, nd, tr := r.Explain, r.NotDecided, r.Trusted
+	extra := r.Extra
+	r.Extra = map[string]any{}
+	outer := r.skipRules
+	r.skipRules = map[string]bool{}
+	for k := range outer {
+		r.skipRules[k] = true
+	}
+	for k := range r.rules {
+		r.skipRules[k] = true
+	}
+	other(c, r)
+	r.skipRules = outer
+	r.Explain, r.NotDecided, r.Trusted, r.Extra = ex, nd, tr, extra
 }
 
 func newReport(c *Ctx, prop string) *Report {
@@ -73,6 +97,9 @@ func (r *Report) Rule(name, doc string, min int) {
 func (r *Report) add(v Verdict, construct string, pos token.Pos, reason string) {
 	if r.curRule == "" {
 		panic("obligation without rule")
+	}
+	if r.skipRules[r.curRule] {
+		return
 	}
 	ri := r.rules[r.curRule]
 	ri.Instances++
